@@ -2,6 +2,7 @@ package main
 
 import (
 	"fmt"
+	"strings"
 	"go/ast"
 	"go/token"
 	"go/types"
@@ -494,7 +495,11 @@ func (fr *Frame) havocMod(s *State, ms *modSet) {
 					continue
 				}
 			}
-			s.havocHeap(k, ms.heaps[k])
+			if strings.HasPrefix(k, "Q:") {
+				s.growGhost(k, ms.heaps[k])
+			} else {
+				s.havocHeap(k, ms.heaps[k])
+			}
 		}
 	}
 	var objs []types.Object
